@@ -390,46 +390,66 @@ for _role, _type in ((None, None), (ObstacleRole.DYNAMIC, None), (None, Obstacle
                 yield ("exactly the matching obstacles", set(id(o) for o in got) == set(id(o) for o in exp) and len(got) == len(exp))
 
 
-@register
-class ObstaclesByPositionIntervals(Contract):
-    prop = "C04"
-    target = "commonroad.scenario.scenario.Scenario.obstacles_by_position_intervals"
-    unroll = MVO
-    summaries = ("make_valid_orientation",)
-    describe = "static: initial position in the box; dynamic: centre of the occupancy at the time step in the box"
+ROLE_SETS = [(ObstacleRole.DYNAMIC, ObstacleRole.STATIC), (ObstacleRole.DYNAMIC, ObstacleRole.Phantom), (ObstacleRole.Phantom,),
+             (ObstacleRole.STATIC, ObstacleRole.ENVIRONMENT), (ObstacleRole.ENVIRONMENT, ObstacleRole.Phantom)]  # pairs: every two roles meet once
 
-    def build(self, F):
-        sc, obstacles = mk_mixed_scenario(F)
-        x0, x1, y0, y1 = F.real("x0"), F.real("x1"), F.real("y0"), F.real("y1")
-        F.assume(z3.And(R(x0) <= R(x1), R(y0) <= R(y1)))
-        t = F.int("t")
-        F.assume(z3.And(T(t) >= 0, T(t) <= 4))
-        iv = [F.new(Interval, x0, x1), F.new(Interval, y0, y1)]
-        return {"sc": sc, "obstacles": obstacles, "box": (x0, x1, y0, y1), "t": t,
-                "args": [sc, iv, (ObstacleRole.DYNAMIC, ObstacleRole.STATIC), t]}
+for _roles in ROLE_SETS:
 
-    def post(self, F, inp, out):
-        from spec.sets import mem
+    @register
+    class ObstaclesByPositionIntervals(Contract):
+        prop = "C04"
+        target = "commonroad.scenario.scenario.Scenario.obstacles_by_position_intervals"
+        case = "roles=" + "+".join(r.name for r in _roles)
+        roles = _roles
+        unroll = MVO
+        summaries = ("make_valid_orientation",)
+        describe = "for every requested role: static / environment by their position, dynamic / phantom by the centre of the occupancy at the time step"
 
-        yield ("raises nothing", out.exc is None)
-        if out.exc is None:
-            got = set(id(o) for o in F.items(out.value))
-            x0, x1, y0, y1 = inp["box"]
-            conds = []
-            for o in inp["obstacles"][:3]:
-                if F.type(o) is StaticObstacle:
-                    c = xy(F, F.attr(F.attr(o, "initial_state"), "position"))
-                    inside = z3.And(mem(c[0], x0, x1), mem(c[1], y0, y1))
-                else:
-                    occ = F.method(o, "occupancy_at_time", inp["t"])
-                    if occ is None:
-                        inside = z3.BoolVal(False)
-                    else:
-                        c = xy(F, F.attr(F.attr(occ, "shape"), "center"))
+        def build(self, F):
+            sc, obstacles = mk_mixed_scenario(F)
+            x0, x1, y0, y1 = F.real("x0"), F.real("x1"), F.real("y0"), F.real("y1")
+            F.assume(z3.And(R(x0) <= R(x1), R(y0) <= R(y1)))
+            t = F.int("t")
+            F.assume(z3.And(T(t) >= 0, T(t) <= 4))
+            iv = [F.new(Interval, x0, x1), F.new(Interval, y0, y1)]
+            return {"sc": sc, "obstacles": obstacles, "box": (x0, x1, y0, y1), "t": t, "args": [sc, iv, self.roles, t]}
+
+        def post(self, F, inp, out):
+            from spec.sets import mem
+
+            yield ("raises nothing", out.exc is None)
+            if out.exc is None:
+                got = set(id(o) for o in F.items(out.value))
+                x0, x1, y0, y1 = inp["box"]
+                conds = []
+                wanted = []
+                for o in inp["obstacles"]:
+                    if F.attr(o, "obstacle_role") not in self.roles:
+                        continue
+                    wanted.append(o)
+                    cls = F.type(o)
+                    if cls is StaticObstacle:
+                        c = xy(F, F.attr(F.attr(o, "initial_state"), "position"))
                         inside = z3.And(mem(c[0], x0, x1), mem(c[1], y0, y1))
-                conds.append(z3.BoolVal(id(o) in got) == inside)
-            yield ("an obstacle is returned iff its centre at the time step lies in the box", z3.And(*conds))
-            yield ("only static and dynamic obstacles", got <= set(id(o) for o in inp["obstacles"][:3]))
+                    elif cls is EnvironmentObstacle:
+                        shp = F.attr(o, "obstacle_shape")
+                        if F.has(shp, "center"):
+                            c = xy(F, F.attr(shp, "center"))
+                            inside = z3.And(mem(c[0], x0, x1), mem(c[1], y0, y1))
+                        else:
+                            inside = z3.BoolVal(True)
+                    else:
+                        occ = F.method(o, "occupancy_at_time", inp["t"])
+                        if occ is None:
+                            inside = z3.BoolVal(False)
+                        elif not F.has(F.attr(occ, "shape"), "center"):
+                            inside = z3.BoolVal(True)
+                        else:
+                            c = xy(F, F.attr(F.attr(occ, "shape"), "center"))
+                            inside = z3.And(mem(c[0], x0, x1), mem(c[1], y0, y1))
+                    conds.append(z3.BoolVal(id(o) in got) == inside)
+                yield ("an obstacle of a requested role is returned iff its centre at the time step lies in the box", z3.And(*conds))
+                yield ("only obstacles of the requested roles", got <= set(id(o) for o in wanted))
 
 
 # ------------------------------------------------------------------------------ enclosure, position uncertainty only (deductive part)
